@@ -27,7 +27,7 @@ import (
 	"verif/internal/model"
 )
 
-const rule = "cases: (signing type, crypto type, seed) x every API path that yields a Destination (NewDestination from a constructed and from a parsed KeysAndCert, NewDestinationFromBytes, ReadDestination, ReadLeaseSet, ReadDestinationFromLeaseSet, ReadLeaseSet2, ReadMetaLeaseSet, RouterIdentity.AsDestination, CreateBlindedDestination, DecryptInnerData on ciphertexts crafted by an independent encryptor) or a RouterIdentity (NewRouterIdentity, NewRouterIdentityWithCompressiblePadding, NewRouterIdentityFromKeysAndCert, NewRouterIdentityFromBytes, ReadRouterIdentity, ReadRouterInfo); types {0..20} x {0..10,255} exhaustively each run, boundary codes 65279..65535 and sampled codes by rapid; wire forms are built byte-wise (key material sized by the specification table, excess key bytes in the certificate). Oracle: policy table transcribed from the specification's usage columns - a Destination never declares signing 4,5,6,8 or crypto 5,6,7; a RouterIdentity additionally never signing 11; if a path returns without error the declared types are outside the table; every permitted and supported pair (signing {0,1,2,7} x crypto {0,4}, plus 11 for Destinations) succeeds on every path. Non-trivial: pair prohibited or permitted-and-supported; distinct by (pair, path)."
+const rule = "cases: (signing type, crypto type, seed) x every API path that yields a Destination (NewDestination from a constructed and from a parsed KeysAndCert, NewDestinationFromBytes, ReadDestination, ReadLeaseSet, ReadDestinationFromLeaseSet, ReadLeaseSet2 and ReadMetaLeaseSet with and without an offline-key block and with the other flag bits, RouterIdentity.AsDestination, CreateBlindedDestination, DecryptInnerData on ciphertexts crafted by an independent encryptor, inner LeaseSet2 with and without offline keys) or a RouterIdentity (NewRouterIdentity, NewRouterIdentityWithCompressiblePadding, NewRouterIdentityFromKeysAndCert, NewRouterIdentityFromBytes, ReadRouterIdentity, ReadRouterInfo); types {0..20} x {0..10,255} exhaustively each run, boundary codes 65279..65535 and sampled codes by rapid; wire forms are built byte-wise (key material sized by the specification table, excess key bytes in the certificate). Oracle: policy table transcribed from the specification's usage columns - a Destination never declares signing 4,5,6,8 or crypto 5,6,7; a RouterIdentity additionally never signing 11; if a path returns without error the declared types are outside the table; every permitted and supported pair (signing {0,1,2,7} x crypto {0,4}, plus 11 for Destinations) succeeds on every path. Non-trivial: pair prohibited or permitted-and-supported; distinct by (pair, path)."
 
 func TestMain(m *testing.M) { ev.Main(m, "C09", rule) }
 
@@ -88,6 +88,59 @@ func sigPubLenOr(st, def int) int {
 	return def
 }
 
+// ls2Header: destination | published | expires | flags | [offline block] for the
+// LeaseSet2-style structures. The offline block (flag bit 0) carries an Ed25519
+// transient key; its signature has the length of the destination's signing type.
+// Returns the header and the length of the trailing signature.
+func ls2Header(id []byte, st int, seed uint64, offline bool, flags byte) ([]byte, int) {
+	b := append(append([]byte{}, id...), model.U32(1700000000)...)
+	b = append(b, 0, 100)
+	if !offline {
+		return append(b, 0, flags&^1), sigLenOr(st, 64)
+	}
+	b = append(b, 0, flags|1)
+	b = append(b, model.U32(1800000000)...)
+	b = append(b, 0, 7)
+	b = append(b, model.NewSignKey(7, seed+11).Pub...)
+	b = append(b, model.Fill(sigLenOr(st, 64), seed+12)...)
+	return b, 64
+}
+
+func readLS2Path(offline bool, flags byte) func(id []byte, st, et int, seed uint64) (*destination.Destination, error) {
+	return func(id []byte, st, _ int, seed uint64) (*destination.Destination, error) {
+		b, sl := ls2Header(id, st, seed, offline, flags)
+		b = append(b, 0, 0) // empty options
+		b = append(b, 1, 0, 4, 0, 32)
+		b = append(b, model.Fill(32, seed)...)
+		b = append(b, 1)
+		b = append(b, model.Fill(40, seed+1)...)
+		b = append(b, model.Fill(sl+64, seed+2)...)
+		ls, _, err := lease_set2.ReadLeaseSet2(b)
+		if err != nil {
+			return nil, err
+		}
+		d := ls.Destination()
+		return &d, nil
+	}
+}
+
+func readMetaPath(offline bool, flags byte) func(id []byte, st, et int, seed uint64) (*destination.Destination, error) {
+	return func(id []byte, st, _ int, seed uint64) (*destination.Destination, error) {
+		b, sl := ls2Header(id, st, seed, offline, flags)
+		b = append(b, 0, 0)
+		b = append(b, 1)
+		b = append(b, model.Fill(32, seed)...)
+		b = append(b, 3, 0, 0, 0, 9, 1, 0, 0)
+		b = append(b, model.Fill(sl+64, seed+2)...)
+		ls, _, err := meta_leaseset.ReadMetaLeaseSet(b)
+		if err != nil {
+			return nil, err
+		}
+		d := ls.Destination()
+		return &d, nil
+	}
+}
+
 type destPath struct {
 	name string
 	f    func(id []byte, st, et int, seed uint64) (*destination.Destination, error)
@@ -144,35 +197,12 @@ var destPaths = []destPath{
 		d, _, err := lease_set.ReadDestinationFromLeaseSet(append(append([]byte{}, id...), model.Fill(400, seed)...))
 		return &d, err
 	}},
-	{"ReadLeaseSet2", func(id []byte, st, _ int, seed uint64) (*destination.Destination, error) {
-		b := append(append([]byte{}, id...), model.U32(1700000000)...)
-		b = append(b, 0, 100, 0, 0, 0, 0) // expires, flags, empty options
-		b = append(b, 1, 0, 4, 0, 32)
-		b = append(b, model.Fill(32, seed)...)
-		b = append(b, 1)
-		b = append(b, model.Fill(40, seed+1)...)
-		b = append(b, model.Fill(sigLenOr(st, 64)+64, seed+2)...)
-		ls, _, err := lease_set2.ReadLeaseSet2(b)
-		if err != nil {
-			return nil, err
-		}
-		d := ls.Destination()
-		return &d, nil
-	}},
-	{"ReadMetaLeaseSet", func(id []byte, st, _ int, seed uint64) (*destination.Destination, error) {
-		b := append(append([]byte{}, id...), model.U32(1700000000)...)
-		b = append(b, 0, 100, 0, 0, 0, 0)
-		b = append(b, 1)
-		b = append(b, model.Fill(32, seed)...)
-		b = append(b, 3, 0, 0, 0, 9, 1, 0, 0)
-		b = append(b, model.Fill(sigLenOr(st, 64)+64, seed+2)...)
-		ls, _, err := meta_leaseset.ReadMetaLeaseSet(b)
-		if err != nil {
-			return nil, err
-		}
-		d := ls.Destination()
-		return &d, nil
-	}},
+	{"ReadLeaseSet2", readLS2Path(false, 0)},
+	{"ReadLeaseSet2(offline keys)", readLS2Path(true, 0)},
+	{"ReadLeaseSet2(offline keys, unpublished, blinded)", readLS2Path(true, 6)},
+	{"ReadLeaseSet2(unpublished)", readLS2Path(false, 2)},
+	{"ReadMetaLeaseSet", readMetaPath(false, 0)},
+	{"ReadMetaLeaseSet(offline keys)", readMetaPath(true, 0)},
 	{"RouterIdentity.AsDestination", func(id []byte, _, _ int, _ uint64) (*destination.Destination, error) {
 		ri, _, err := router_identity.ReadRouterIdentity(id)
 		if err != nil {
@@ -181,17 +211,31 @@ var destPaths = []destPath{
 		d := ri.AsDestination()
 		return &d, nil
 	}},
-	{"DecryptInnerData", func(id []byte, st, _ int, seed uint64) (*destination.Destination, error) {
+	{"DecryptInnerData", decryptPath(false)},
+	{"DecryptInnerData(inner offline keys)", decryptPath(true)},
+	{"CreateBlindedDestination", func(id []byte, _, _ int, seed uint64) (*destination.Destination, error) {
+		// the argument must itself come from the API (a struct literal is not an API path)
+		src, _, err := destination.ReadDestination(id)
+		if err != nil {
+			return nil, err
+		}
+		d, err := encrypted_leaseset.CreateBlindedDestination(src, model.Fill(32, seed), timeAt(1700000000))
+		return &d, err
+	}},
+}
+
+func decryptPath(offline bool) func(id []byte, st, et int, seed uint64) (*destination.Destination, error) {
+	return func(id []byte, st, _ int, seed uint64) (*destination.Destination, error) {
 		// inner LeaseSet2 with this destination, encrypted by an independent
 		// implementation of the documented scheme (ephemeral X25519, HKDF purpose
 		// key, ChaCha20-Poly1305; layout eph | nonce | ciphertext | tag)
-		b := append(append([]byte{}, id...), model.U32(1700000000)...)
-		b = append(b, 0, 100, 0, 0, 0, 0)
+		b, sl := ls2Header(id, st, seed, offline, 0)
+		b = append(b, 0, 0)
 		b = append(b, 1, 0, 4, 0, 32)
 		b = append(b, model.Fill(32, seed)...)
 		b = append(b, 1)
 		b = append(b, model.Fill(40, seed+1)...)
-		b = append(b, model.Fill(sigLenOr(st, 64), seed+2)...)
+		b = append(b, model.Fill(sl, seed+2)...)
 		rpriv := x25519.PrivateKey(model.Fill(32, seed+7))
 		rpub, err := rpriv.PublicKey()
 		if err != nil {
@@ -235,16 +279,7 @@ var destPaths = []destPath{
 		}
 		d := ls.Destination()
 		return &d, nil
-	}},
-	{"CreateBlindedDestination", func(id []byte, _, _ int, seed uint64) (*destination.Destination, error) {
-		// the argument must itself come from the API (a struct literal is not an API path)
-		src, _, err := destination.ReadDestination(id)
-		if err != nil {
-			return nil, err
-		}
-		d, err := encrypted_leaseset.CreateBlindedDestination(src, model.Fill(32, seed), timeAt(1700000000))
-		return &d, err
-	}},
+	}
 }
 
 type riPath struct {
